@@ -225,7 +225,18 @@ def make_base(spec, mixins=()):
                 return lo, hi
             for base, sym in self._vec.items():
                 comps = ["%s#%d" % (base, i) for i in range(sym.shape[0])]
-                if any(c in b for c in comps):
+                if base in self._spec.get("vector_series", []):
+                    # one Timeseries with a column per component (values of shape n_times x size)
+                    sides = []
+                    for k in (0, 1):
+                        col = [b[c][k] for c in comps]
+                        if all(isinstance(x, dict) for x in col):
+                            sides.append(Timeseries(np.array([fl(t) for t in col[0]["times"]]),
+                                                    np.column_stack([[fl(x) for x in c_["values"]] for c_ in col])))
+                        else:
+                            sides.append(np.array([(-np.inf if k == 0 else np.inf) if x is None else fl(x) for x in col]))
+                    d[base] = tuple(sides)
+                elif any(c in b for c in comps):
                     d[base] = vec(b, comps)         # per-component vector bounds
             # a second source, combined the way users do it: merge_bounds
             b2 = self._spec.get("bounds2", {})
